@@ -53,7 +53,7 @@ OPS_REQUIRED = ["sort_tree", "get_subtree", "to_subtree", "cut_tree", "redirect_
 REQUIRED = ["contract_evals_" + o for o in OPS_REQUIRED] + [
     "steps_executed", "probe_output_poison", "probe_input_poison", "roundtrip_steps",
     "identity_transform_steps", "same_tree_in_two_argument_positions", "size_sweep_cases",
-    "pipelines_starting_from_a_branch_tree",
+    "pipelines_starting_from_a_branch_tree", "deep_pruning_cases",
     "steps_on_readonly_columns"]
 FLOOR = {"quick": 300, "thorough": 30000}
 SHARDS = {"quick": 8, "thorough": 16}
@@ -398,6 +398,20 @@ def run(ctx):
         ctx.case(case, klass="size-sweep")
         ctx.count("size_sweep_cases")
         execute(ctx, case)
+    deep = [("chain", 300), ("bamboo", 400), ("chain", 1000), ("caterpillar", 600), ("stem", 500),
+            ("bamboo", 1500), ("chain", 130), ("broom", 700)]
+    for j, (shape, n_) in enumerate(deep):
+        # pruning near the root of deep structures: whatever is removed has hundreds of
+        # generations below it, all of which go with it
+        if j % ctx.nshards != ctx.shard:
+            continue
+        rc = {"shape": shape, "n": n_, "numbering": "perm" if j % 2 else "sorted", "geom": "growth",
+              "types": "soma", "extras": 0, "seed": 300 + j + 10 * ctx.seed}
+        for ops in (["to_subtree"], ["cut_leave"], ["CutShortTipBranch"], ["cut_enter"]):
+            case = {"tree": rc, "pseed": 21 + j, "length": 1, "ops": ops}
+            ctx.case(case, klass="deep-pruning")
+            ctx.count("deep_pruning_cases")
+            execute(ctx, case)
     if ctx.shard == 0:  # one deep chain through the stack-based operations
         from swcgeom.core import Tree, get_subtree, redirect_tree, sort_tree
 
